@@ -1,7 +1,10 @@
 """C09 — compiled programs compute what their source means (reference evaluator)."""
 import json
+import os
+import subprocess
+import tempfile
 
-from ..core import get_worker, rng_for, bits_to_float, float_to_bits, WorkerDied, WorkerTimeout
+from ..core import get_worker, rng_for, bits_to_float, float_to_bits, WorkerDied, WorkerTimeout, VERIF, TARGET
 from .. import refeval as R
 
 LEVEL = "exploration"
@@ -22,11 +25,18 @@ ASSUMPTIONS = ["the reference evaluator implements the evaluation rules listed a
                "programs whose output formatting leaves the modelled subset (non-integers beyond 6 digits, |x| >= 1e15, "
                "-0, structs inside strings) are discarded, not judged"]
 NSHARDS = 16
+NEEDS_THOROUGH = ["miri"]
+MIRI_PROGRAMS_PER_SHARD = 3
 
 
 def shards(tier, seed):
     n = 3200 if tier == "quick" else 64000
-    return [{"idx": i, "n": NSHARDS, "seed": seed, "count": n // NSHARDS} for i in range(NSHARDS)]
+    out = [{"kind": "native", "idx": i, "n": NSHARDS, "seed": seed, "count": n // NSHARDS} for i in range(NSHARDS)]
+    if tier == "thorough":
+        # supplementary: the same generator, a few programs per process under Miri (UB / invalid enum values in the
+        # opcode decode, struct field swap_remove, Arc handling); the mini prelude stands in for the real one
+        out += [{"kind": "miri", "idx": i, "seed": seed, "count": MIRI_PROGRAMS_PER_SHARD} for i in range(NSHARDS)]
+    return out
 
 
 def to_json_value(v):
@@ -177,7 +187,71 @@ def make_base(w):
     return base
 
 
+def run_miri(sh, spec):
+    rng = rng_for(spec["seed"], "C09miri", spec["idx"])
+    mini = open(os.path.join(VERIF, "vf", "mini_prelude.nbt"), encoding="utf-8").read()
+    env = dict(os.environ, CARGO_NET_OFFLINE="true", MIRIFLAGS="-Zmiri-disable-isolation")
+    env.pop("RUSTFLAGS", None)
+    done = 0
+    attempts = 0
+    while done < spec["count"] and attempts < 40:
+        attempts += 1
+        if rng.random() < 0.4:
+            stmts, g = R.gen_scope_program(rng, f"m{spec['idx']}_{attempts}x")
+        else:
+            stmts, g = R.gen_program(rng, f"m{spec['idx']}_{attempts}x", rng.randint(3, 8))
+        m = R.Machine()
+        try:
+            want = m.run(stmts)
+        except (R.Unprintable, R.EvalError):
+            continue
+        if m.steps > 3000:
+            continue          # keep the interpreted run short
+        texts = [R.render_stmt(s) for s in stmts]
+        with tempfile.NamedTemporaryFile("w", suffix=".nbt", dir=TARGET, delete=False, encoding="utf-8") as f:
+            f.write(mini + "\n" + R.STRUCT_DEFS + "\n" + "\n".join(texts) + "\n")
+            path = f.name
+        cmd = ["cargo", "+nightly", "miri", "run", "--offline", "--target-dir", os.path.join(TARGET, "miri"), "--", "runprog", path]
+        try:
+            p = subprocess.run(cmd, cwd=os.path.join(VERIF, "server"), env=env, capture_output=True, text=True, timeout=3000)
+        except subprocess.TimeoutExpired:
+            sh.inconclusive_case("miri run exceeded the harness watchdog (not a verdict)")
+            continue
+        finally:
+            try:
+                os.unlink(path)
+            except OSError:
+                pass
+        case = {"program": texts, "mode": "miri"}
+        if "Undefined Behavior" in p.stderr:
+            sh.violation(dict(case, signature="miri UB"), "Miri reports undefined behaviour while interpreting:\n  "
+                         + "\n  ".join(texts)[:1500] + "\n" + "\n".join(p.stderr.splitlines()[-30:]))
+            done += 1
+            continue
+        line = next((l for l in p.stdout.splitlines() if l.startswith("{")), None)
+        if line is None:
+            sh.inconclusive_case(f"miri run produced no result (rc={p.returncode}): {p.stderr[-400:]}")
+            continue
+        r = json.loads(line)
+        if not r.get("ok"):
+            sh.count_in("miri: rejected or failed (mini prelude differs from the real one; not judged)", (r.get("msg") or "")[:60])
+            continue
+        done += 1
+        sh.judged()
+        sh.count("miri_programs_judged")
+        for name, n in r.get("opcodes") or []:
+            sh.count_in("opcodes_executed_under_miri", name, n)
+        got, exp = nan_norm(norm_value(r.get("value"))), nan_norm(to_json_value(want))
+        if got != exp or (r.get("prints") or []) != m.prints:
+            sh.violation(dict(case, expected={"value": exp, "prints": m.prints}, signature="miri value"),
+                         f"(under Miri) value {json.dumps(got)[:200]} / prints {r.get('prints')} but the source means "
+                         f"{json.dumps(exp)[:200]} / {m.prints}\n  " + "\n  ".join(texts)[:1500])
+        sh.nontrivial("miri", "\n".join(texts))
+
+
 def run_shard(sh, spec):
+    if spec.get("kind") == "miri":
+        return run_miri(sh, spec)
     w = get_worker()
     base = make_base(w)
     rng = rng_for(spec["seed"], "C09", spec["idx"])
